@@ -5,6 +5,7 @@ Property theorems only; helper lemmas live in `Lemmas/`.
 -/
 import DeadpoolVerif.Lemmas.ObjInvStep
 import DeadpoolVerif.Lemmas.LogMono
+import DeadpoolVerif.Lemmas.MetLog
 
 namespace DeadpoolVerif
 
@@ -76,5 +77,77 @@ theorem C13_return_keeps_metrics (s s' : State) (i : Nat) (o : Obj) (hl : s.lock
 /-! Non-vacuity: an object handed out three times has recycle_count 2 -/
 example : ({ id := 0, created := 3, recycled := some 40, rc := 2, handouts := 3 } : Obj).used := by
   simp [Obj.used]
+
+theorem mem_hoOf {x : Nat} {log : List Ev} {p : Obj} (h : p ∈ hoOf x log) :
+    p.id = x ∧ ∃ i, Ev.handout i p ∈ log := by
+  simp only [hoOf, List.mem_filterMap] at h
+  obtain ⟨e, he, hp⟩ := h
+  cases e with
+  | handout i o =>
+    simp only [Ev.hoObj] at hp
+    split at hp
+    · simp only [Option.some.injEq] at hp
+      subst hp
+      exact ⟨‹_›, i, he⟩
+    · simp at hp
+  | _ => simp [Ev.hoObj] at hp
+
+/-- **C13 (read off the event log).** Take any history and any object id, and list the
+hand-out events of that object in the order they were logged.  The `k`-th of them (counting
+from 0) reports `recycle_count = k` — the number of times the object has been handed out again
+after its first use — and a last-recycled instant that is absent exactly for `k = 0`; all of
+them report the same creation instant; and the last-recycled instants never move backwards
+along the list.  (The ghost counter `handouts` of `C13_metrics_truthful` is thereby shown to
+be the real number of hand-out events.) -/
+theorem C13_handouts_in_log (cfg : Cfg) (acts : List Action) (x : Nat) :
+    (∀ k p, (hoOf x (run (init cfg) acts).log)[k]? = some p →
+      p.id = x ∧ p.rc = k ∧ (p.recycled = none ↔ k = 0)) ∧
+    (∀ p ∈ hoOf x (run (init cfg) acts).log, ∀ q ∈ hoOf x (run (init cfg) acts).log,
+      p.created = q.created) ∧
+    (hoOf x (run (init cfg) acts).log).Pairwise (fun p q => optLE p.recycled q.recycled) := by
+  have m := run_metlog cfg acts
+  have v := run_objinv cfg acts
+  refine ⟨?_, m.created x, m.mono x⟩
+  intro k p hk
+  have hmem : p ∈ hoOf x (run (init cfg) acts).log := List.mem_of_getElem? hk
+  obtain ⟨hid, i, hev⟩ := mem_hoOf hmem
+  have hu : p.used := v.log _ hev
+  have hh := m.idx x k p hk
+  obtain ⟨h1, h2⟩ := hu
+  have hrc : p.rc = k := by omega
+  exact ⟨hid, hrc, by rw [h2, hrc]⟩
+
+/-- **C13 (every live object agrees with the log).** In every reachable state, an object that
+is idle or in a caller's hands has `recycle_count + 1` equal to the number of hand-out events
+of its id in the log, the creation instant every one of those events reported, and a
+last-recycled instant not earlier than any of them reported. -/
+theorem C13_live_agrees_with_log (cfg : Cfg) (acts : List Action) :
+    ∀ o ∈ (run (init cfg) acts).idle ++ (run (init cfg) acts).out,
+      o.rc + 1 = (hoOf o.id (run (init cfg) acts).log).length ∧
+      ∀ p ∈ hoOf o.id (run (init cfg) acts).log,
+        p.created = o.created ∧ optLE p.recycled o.recycled := by
+  intro o ho
+  have m := run_metlog cfg acts
+  have v := run_objinv cfg acts
+  have hl : o ∈ (run (init cfg) acts).live := by
+    rcases List.mem_append.mp ho with h | h
+    · exact live_of_idle h
+    · exact live_of_out h
+  have hu : o.used := by
+    rcases List.mem_append.mp ho with h | h
+    · exact (v.idle o h).1
+    · exact (v.out o h).1
+  obtain ⟨a1, a2⟩ := m.live o hl
+  exact ⟨by rw [← a1]; exact hu.1.symm, a2⟩
+
+/-- not vacuous: an object handed out, returned and handed out again has two hand-out events,
+the second with `recycle_count = 1` -/
+example :
+    let acts : List Action :=
+      [ .start (.get {}), .step 0 .run, .step 0 .run, .step 0 .run, .step 0 .ok, .step 0 .run,
+        .start (.ret 0), .step 1 .run, .step 1 .run, .step 1 .run,
+        .start (.get {}), .step 2 .run, .step 2 .run, .step 2 .run, .step 2 .ok ]
+    ((hoOf 0 (run (init { maxSize := 1 }) acts).log).map Obj.rc) = [0, 1] := by
+  decide
 
 end DeadpoolVerif
